@@ -368,7 +368,7 @@ class ndarray:
     def mean(self, axis=None): return mean(self, axis)
     def argmax(self): return argmax(self)
     def argmin(self): return argmin(self)
-    def argsort(self, *a, **k): return argsort(self)
+    def argsort(self, *a, **k): return argsort(self, *a, **k)
     def all(self, axis=None): return all_(self, axis)
     def any(self, axis=None): return any_(self, axis)
     def cumsum(self, axis=None, out=None): return cumsum(self, axis, out)
@@ -644,6 +644,13 @@ class _Maximum:
     def __call__(self, a, b):
         return _ew2(core.smax, a, b)
 
+    def accumulate(self, a, axis=0):
+        r, out = None, []
+        for v in _flat(a):
+            r = v if r is None else self(r, v)
+            out.append(r)
+        return array(out)
+
     def reduce(self, lst, axis=0):
         r = lst[0]
         for x in lst[1:]:
@@ -654,6 +661,19 @@ class _Maximum:
 class _Minimum:
     def __call__(self, a, b):
         return _ew2(core.smin, a, b)
+
+    def accumulate(self, a, axis=0):
+        r, out = None, []
+        for v in _flat(a):
+            r = v if r is None else self(r, v)
+            out.append(r)
+        return array(out)
+
+    def reduce(self, lst, axis=0):
+        r = lst[0]
+        for x in lst[1:]:
+            r = self(r, x)
+        return r
 
 
 def hypot(a, b):
@@ -920,6 +940,8 @@ def argsort(a, *args, **kw):
         kb = b.key() if isinstance(b, S) else repr(b)
         import zlib
         tag = zlib.crc32(repr((ka, kb, i < j)).encode()) & 0xffffff
+        if kw.get('kind') in ('stable', 'mergesort'):
+            return -1 if i < j else 1          # a stable sort keeps tied keys in input order
         core.CTX.tie_count = getattr(core.CTX, 'tie_count', 0) + 1
         r = -1 if bool(core.CTX.var('tie!%06x' % tag) >= 0) else 1
         return r if i < j else -r
@@ -927,9 +949,9 @@ def argsort(a, *args, **kw):
     return ndarray(_np.array(idx, dtype=_np.int64), _raw=True)
 
 
-def sort(a):
+def sort(a, axis=-1, kind=None):
     A = array(a)
-    A.d[:] = A.d[argsort(A).d]
+    A.d[:] = A.d[argsort(A, kind=kind).d]
     return A
 
 
